@@ -155,7 +155,115 @@ CORPUS_F = """SOLUTION 1 fluoride next to iron
  C(4) 1
 END
 """
-CORPUS = [("corpus:fluoride-iron", CORPUS_F), ("corpus:model-reuse", """SOLUTION 1 case 39
+CORPUS_V = """SOLUTION 1 case 33
+ temp 60
+ pH 7.60789
+ units mmol/kgw
+ Na 172.33
+ Cl 172.33 charge
+ Ca 14.1999
+ C(4) 8.92529
+ S(6) 2.44458
+ Sr 0.778462
+ -water 1.80856
+SOLUTION 2 case 33
+ temp 40
+ pH 7.97571
+ pe 2.27326
+ units mmol/kgw
+ Na 159.384
+ Cl 159.384 charge
+ Ca 3.19625
+ C(4) 8.70447
+ Mg 9.42808
+ K 2.23526
+ Fe(2) 0.0424088
+SOLUTION 3 case 33
+ temp 10
+ pH 7.01096
+ pe 2.23918
+ units mmol/kgw
+ Na 70.6557
+ Cl 70.6557 charge
+ Ca 16.0122
+ K 3.24503
+ N(-3) 0.354025
+EXCHANGE 1
+ X 0.218341
+ -equilibrate 1
+SURFACE 1
+ Goe_uniOH-0.5 1.44255 91.6075 1.25782
+ Goe_triO-0.5 2.13631
+ -capacitance 0.861479 0.783949
+ -cd_music
+ -equilibrate 1
+EQUILIBRIUM_PHASES 1
+ Gypsum 0.2 10
+ CO2(g) -3.29694 10
+GAS_PHASE 1
+ -fixed_pressure
+ -pressure 4.38274
+ -volume 2.55408
+ -temperature 25
+ CO2(g) 0.0416044
+ N2(g) 0.32193
+SOLID_SOLUTIONS 1
+ CaSrCO3
+  -comp Aragonite 0
+  -comp Strontianite 0.01
+  -Gugg_nondim 3.43 -1.82
+KINETICS 1
+ Calcite_k
+  -formula CaCO3 1
+  -m0 0.0557145
+  -parms 7.87035e-07
+  -tol 1e-9
+ -steps 1000 10 100 100 100 100 10
+EQUILIBRIUM_PHASES 2
+ Calcite 0 10
+ Anhydrite 0 0
+KINETICS 2
+ Calcite_k
+  -formula CaCO3 1
+  -m0 0.0627045
+  -parms 9.85912e-08
+  -tol 1e-9
+ Decay
+  -formula NaCl 1
+  -m0 0.000711582
+  -parms 3.23526e-05 0.461807
+ -steps 10
+ -cvode true
+EXCHANGE 3
+ X 0.185005
+ -equilibrate 3
+GAS_PHASE 3
+ -fixed_volume
+ -volume 4.38826
+ -temperature 40
+ CO2(g) 0.0580369
+ N2(g) 0.44749
+KINETICS 3
+ Calcite_k
+  -formula CaCO3 1
+  -m0 0.0386173
+  -parms 2.67343e-07
+  -tol 1e-9
+ Decay
+  -formula NaCl 1
+  -m0 0.000859517
+  -parms 4.09559e-05 0.402363
+ -steps 1000 100 1000 100 1000 100 100
+ -runge_kutta 1
+REACTION_PRESSURE 9
+ 1 20 in 3 steps
+END
+RUN_CELLS
+ -cells 1 2 3
+ -time_step 10
+END
+"""
+CORPUS = [("corpus:fluoride-iron", CORPUS_F), ("corpus:stale-v_m", CORPUS_V), ("corpus:model-reuse", """SOLUTION 1 case 39
  temp 10
  pH 8.79106
  pe -0.249658
@@ -535,6 +643,14 @@ def perturb(d, nd):
 
 PERT = 1e-9
 H_SPACING, O_SPACING = 1e-11, 1e-12     # spacing of 14-significant-digit decimals near 111 (total_h) and 55.5 (total_o)
+
+
+def only_column_differs(ta, tb, col):
+    if not ta or not tb or len(ta) != len(tb):
+        return False
+    ta2 = [{k: v for k, v in r.items() if k != col} for r in ta]
+    tb2 = [{k: v for k, v in r.items() if k != col} for r in tb]
+    return first_diff(ta2, tb2, tol=100 * TOL) is None
 
 
 def truncate_digits(d, nd, keys=("total_h", "total_o")):
@@ -1012,7 +1128,7 @@ def run_round_trip(ctx, cases, static_defects, kw2cls, timeout_each=25):
                     d, "same table shape", {"followup": c.follow})
             elif d:
                 pre = c.defs if label == "fresh-instance" else c.text + "\nEND\nDELETE\n -all\nEND\n"
-                pending.append({"c": c, "label": label, "d": d, "user": "97", "orig": to,
+                pending.append({"c": c, "label": label, "d": d, "user": "97", "orig": (ref if (ref is not None and len(ref) == len(to)) else to), "rest": tr,
                                 "text": lambda nd, pre=pre, c=c: pre + perturb(c.d1, nd) + "\nEND\n" + c.follow,
                                 "what": "follow-up RUN_CELLS differs between original and restored state (%s)" % label,
                                 "key": "followup:%s:%s" % (label, d[1]), "extra": {"followup": c.follow}})
@@ -1063,7 +1179,7 @@ def run_round_trip(ctx, cases, static_defects, kw2cls, timeout_each=25):
                     if isinstance(d, str):
                         add(c, "modify-element:shape", "SOLUTION_MODIFY (element-named totals): %s" % d, d, "same table shape")
                     elif d:
-                        pending.append({"c": c, "label": "modify", "d": d, "user": "95", "orig": teo,
+                        pending.append({"c": c, "label": "modify", "d": d, "user": "95", "orig": teo, "rest": vlib.table_dicts(er["tables"]["95"]),
                                         "text": lambda nd, c=c: c.text + "\nEND\n" + perturb(c.mode[0], nd) + "END\n" + c.fe95,
                                         "what": "re-instating the captured totals by ELEMENT name through SOLUTION_MODIFY gives different follow-up results",
                                         "key": "modify-element:%s" % d[1], "extra": {"modify": mtxt}})
@@ -1086,7 +1202,7 @@ def run_round_trip(ctx, cases, static_defects, kw2cls, timeout_each=25):
                         add(c, "modify:shape", "SOLUTION_MODIFY restore path: %s" % d, d, "same table shape")
                     elif d:
                         fo96, _ = followup(c.d1, [c.mod[2]], 96)
-                        pending.append({"c": c, "label": "modify", "d": d, "user": "96", "orig": tmo,
+                        pending.append({"c": c, "label": "modify", "d": d, "user": "96", "orig": tmo, "rest": vlib.table_dicts(mr["tables"]["96"]),
                                         "text": lambda nd, c=c, fo96=fo96: c.text + "\nEND\n" + c.mod[0] + "END\n" + perturb(c.mod[1], nd) + "END\n" + fo96,
                                         "what": "restoring totals/total_h/total_o/cb through SOLUTION_MODIFY gives different follow-up results",
                                         "key": "modify:%s" % d[1], "extra": {"modify": c.mod[0] + "END\n" + c.mod[1]}})
@@ -1127,7 +1243,7 @@ def run_round_trip(ctx, cases, static_defects, kw2cls, timeout_each=25):
                 continue
             seen[sig] = k
             alias[k] = k
-            if len(dj) < 160:
+            if len(dj) < 1200:
                 for nd in (13, 12, 11, 10):
                     dj.append(job("diag%d/%d" % (k, nd), p["c"].db, p["text"](nd)))
         t0 = time.time()
@@ -1182,6 +1298,13 @@ def run_round_trip(ctx, cases, static_defects, kw2cls, timeout_each=25):
                 add(cc, "schema:%s:%s" % (li[0], li[1]),
                     "%s %s is not restored from the DUMP text (%s) and follow-up results on the restored state deviate slightly: %s" % (li[0], li[1], li[2], desc),
                     {"cell": desc, "deviation": dev14, "effect_of_+-1e-9_mol_in_total_h_total_o_(h+,o+,h-,o-)": devs, "path": p["label"]}, "relative difference <= 1e-7", p["extra"])
+            elif h == "volume" and only_column_differs(p["orig"], p.get("rest"), "volume"):
+                # every mole number, pressure, pH ... agrees; only the gas VOLUME printed by punch_gas_phase (= stored v_m x moles for a
+                # Peng-Robinson gas phase) differs: the saved GAS_PHASE carries a stale molar volume that one state refreshes and the
+                # other does not
+                add(cc, "gas-volume:stale-v_m", "follow-up results agree except the reported gas volume (stale molar volume v_m in the saved gas phase): " + desc,
+                    {"cell": desc, "path": p["label"], "in_memory_copy_agrees_with_original": copy_ok, "text_fully_restored": text_ok},
+                    "relative difference <= 1e-7", p["extra"])
             else:
                 add(p["c"], p["key"], p["what"] + ": " + desc,
                     {"cell": desc, "deviation_with_14_digits": dev14, "effect_of_+-1e-9_mol_in_total_h_total_o_(h+,o+,h-,o-)": devs, "scales_with_digits": scaled,
